@@ -512,13 +512,19 @@ Print Assumptions C08_tparams_reject_example.
 (** Claim (c) for transport parameters (possible since the repairs of max_idle_timeout / min_ack_delay):
     everything Unmarshal accepts from a byte string is a well-formed value; Marshal's encoding of it
     (whatever the 18 random bytes of the greased parameter) is accepted again and yields the same
-    value — parse -> Marshal -> parse is a fixpoint — except that a saturated max_idle_timeout
-    (2^63-1 ns) comes back cut to whole milliseconds. *)
+    value — parse -> Marshal -> parse is a fixpoint — except that (i) a saturated max_idle_timeout
+    (2^63-1 ns) comes back cut to whole milliseconds and (ii) AdvertisedMaxIdleTimeout (what the peer
+    sent, receive side only: MaxIdleTimeout = max(5 s, advertised), 0 = none) is not what Marshal writes:
+    Marshal sends MaxIdleTimeout, so an advertised value below 5 s comes back as 5 s (tp_norm).
+    parsed_wf also states the relation between the two fields for everything Unmarshal accepts. *)
 From V Require Import Wire.TParamsReencode.
 
 Theorem C08_tparams_parsed_wf : forall pers b p,
   bytes b -> unmarshal pers false b = Ok p ->
-  tp_wf p /\ (tp_mit p <> maxInt64 -> tp_norm pers p = p).
+  tp_wf p /\
+  ((tp_amit p = 0 /\ tp_mit p = 0) \/
+   (0 < tp_amit p <= maxInt64 /\ tp_mit p = Z.max TP_MinRemoteIdleTimeout (tp_amit p))) /\
+  (tp_mit p <> maxInt64 -> tp_amit p = 0 \/ TP_MinRemoteIdleTimeout <= tp_amit p -> tp_norm pers p = p).
 Proof. exact unmarshal_wf. Qed.
 Print Assumptions C08_tparams_parsed_wf.
 
@@ -526,7 +532,8 @@ Theorem C08_tparams_reencode : forall pers rnd b p,
   bytes b -> length rnd = 18%nat -> Forall is_byte rnd ->
   unmarshal pers false b = Ok p ->
   unmarshal pers false (marshal pers rnd p) = Ok (tp_norm pers p) /\
-  (tp_mit p <> maxInt64 -> unmarshal pers false (marshal pers rnd p) = Ok p).
+  (tp_mit p <> maxInt64 -> tp_amit p = 0 \/ TP_MinRemoteIdleTimeout <= tp_amit p ->
+   unmarshal pers false (marshal pers rnd p) = Ok p).
 Proof. exact tparams_reencode. Qed.
 Print Assumptions C08_tparams_reencode.
 
